@@ -667,8 +667,9 @@ def c05(d, run):
                     ["ttl"],
                     [("ttl", "sync", 30, 300), ("ttl_fine", "sync", 20, 150), ("ttl_conc", "sync", 25, 200), ("ttl", "async", 10, 80)],
                     ["store", "em", "costs", "cbs", "chan"], ["IndexExact", "Agree", "UsedIsSum", "NeverTwice", "Conservation"], nontrivial=("PTick", "PCleanupKey", "PCleanupDone"))
-    free_stage(d, run, "the real background loops violate a state predicate of Cache.tla (bounded reclaim delay, exact index)",
-               [("sync", "thread", 4, 32), ("async", "thread", 4, 32)])
+    free_stage(d, run, "the real background loops violate a state predicate of Cache.tla (bounded reclaim delay, exact index; "
+               "one instance in four with the builder's default cleanup interval)",
+               [("sync", "thread", 4, 32), ("async", "thread", 4, 32)], kinds="norm,dflt,norm,tiny")
     _need(d, h, ["PTick", "PCleanupKey", "PCleanupDone", "Advance", "InsBegin"])
     run.nontrivial = len(getattr(run, "_distinct", ()))
     run.rule = ("non-trivial = keys handled by a cleanup sweep; after every section the expiration buckets, resident entries, "
@@ -740,7 +741,7 @@ def c18(d, run):
     run.evaluations += r.get("lines", 0)
     h = cache_stage(d, run, "real cache deviates from Cache.tla (colliding keys)",
                     ["seq"],
-                    [("coll", "sync", 30, 200), ("coll_conc", "sync", 15, 100), ("coll", "async", 10, 60)],
+                    [("coll", "sync", 30, 200), ("coll_conc", "sync", 15, 100), ("coll_lag", "sync", 20, 120), ("coll", "async", 10, 60), ("coll_lag", "async", 8, 60)],
                     ["store", "out", "costs", "cbs", "chan"], ["ResidentOwned", "Agree", "Conservation"], nontrivial=("InsBegin", "Get", "GetMut", "GetTtl", "RemStore", "PDel"))
     _need(d, h, ["InsBegin", "Get", "RemStore", "PDel"])
     run.nontrivial = len(getattr(run, "_distinct", ()))
@@ -797,6 +798,8 @@ def c15(d, run):
                            for s in d.sample_lines(trace, 3, lambda j: j.get("ev") in ("Get", "LRecv"))]
     free_stage(d, run, "lookups kept by the policy queue are not reflected by the estimator (real worker racing the real processor)",
                [("sync", "thread", 4, 16), ("async", "thread", 4, 16)], est=True)
+    free_stage(d, run, "parallel lookups: a lookup is not accounted exactly once (in the ring, or in one batch counted kept or dropped)",
+               [("sync", "thread", 2, 12), ("async", "thread", 2, 12)], kinds="par")
     _need(d, hist, ["Get", "GetMut", "LRecv", "ClsPolFlag"])
     run.notes["event_histogram"] = hist
     run.nontrivial = len(getattr(run, "_distinct", ()))
@@ -892,7 +895,7 @@ def c20(d, run):
                     ALL_CMP, ALL_INV, nontrivial=("Init", "Finalize", "LRecv", "PVictim", "PCleanupKey"))
     free_stage(d, run, "a cache built from an accepted configuration does not complete its operations (real loops, tiny cleanup intervals, "
                "parallel clients included)",
-               [("sync", "thread", 10, 40), ("async", "thread", 5, 25)], kinds="norm,par,drop,tiny,tiny")
+               [("sync", "thread", 10, 40), ("async", "thread", 5, 25)], kinds="norm,par,drop,tiny,dflt")
     _need(d, h, ["Finalize", "LRecv", "PVictim", "PCleanupKey", "Get"])
     run.nontrivial = len(getattr(run, "_distinct", ()))
     run.rule = ("one instance per configuration: num_counters 1..70 in turn (quick: once each for sync, every second one for async), "
